@@ -73,7 +73,7 @@ def build(spec):
 def main(tier, seed):
     t0 = time.time()
     specs = enumerate_specs(tier)
-    results = runner.run_pool(__name__, specs, tier, seed)
+    results = runner.run_pool(__name__, specs, tier, seed, chain=4)
     return runner.finish(
         PROP, tier, seed, results, t0,
         bounds={"dtypes": ["float32", "float64"], "upstream gradient dtypes": ["float32", "float64"],
